@@ -274,3 +274,7 @@ CONTRACTS.append(Contract(
     modifies=NOTHING,
     lemmas=['lookup_sanitized', 'sanitized_eqdom'],
 ))
+# marker ghost: "this file was parsed as a cache file without error" (set on normal return only)
+CONTRACTS[-1].ghost_updates = lambda c: {
+    'cache_read': z3.Store(c.gold('cache_read'), c.filename, True)}
+CONTRACTS[-1].ghost_updates_on = 'ret'
